@@ -77,6 +77,8 @@ class Recorder:
     def __init__(self):
         self.events = []      # ("build", index, shuffler) / ("query", index, qlat, qlon, J, D, r)
         self.bins = []        # (label ns, rows)
+        self.binned_times = []
+        self.sliced_times = []
         self.nbuilt = 0
 
 
@@ -105,6 +107,9 @@ def install(rec):
     orig_bin = cm.Collocator._bin_pairs
 
     def rec_bin(chunk1_start, chunk1, primary, secondary, max_interval):
+        if not rec.bins:
+            rec.binned_times = primary.index.values.astype("datetime64[ns]").astype("int64").tolist()
+            rec.sliced_times = secondary.index.values.astype("datetime64[ns]").astype("int64").tolist()
         rec.bins.append((int(chunk1_start.value), len(chunk1)))
         return orig_bin(chunk1_start, chunk1, primary, secondary, max_interval)
 
@@ -128,6 +133,31 @@ class Codes:
         if k not in self.m:
             self.m[k] = len(self.m)
         return self.m[k]
+
+
+def check_cut(ck, rec, case):
+    """the hypothesis `ValidCut` of the binning theorems, checked on the groups pandas produced: time-sorted
+    data, consecutive runs covering all rows, each label <= its run's (and all later) times and > all earlier"""
+    if not rec.bins:
+        return
+    t, u = rec.binned_times, rec.sliced_times
+    bad = None
+    if any(a > b for a, b in zip(t, t[1:])) or any(a > b for a, b in zip(u, u[1:])):
+        bad = "binned arrays are not sorted by time"
+    pos = 0
+    for label, n in rec.bins:
+        if bad:
+            break
+        if pos > 0 and not t[pos - 1] < label:
+            bad = f"label {label} is not above the earlier time {t[pos - 1]}"
+        elif pos < len(t) and not label <= t[pos]:
+            bad = f"label {label} is above the time {t[pos]} of its own/later run"
+        pos += n
+    if not bad and pos != len(t):
+        bad = f"runs cover {pos} of {len(t)} rows"
+    ck.count("cut/valid" if not bad else "cut/INVALID")
+    if bad:
+        ck.disagree("pandas groups violate the ValidCut hypothesis: " + bad, case)
 
 
 def exc_name(e):
@@ -181,16 +211,13 @@ def classify(call, what=""):
     return call.get("_sig", "other")
 
 
-def has_sub_us(call):
-    return any(t % 1000 for d in (call["p"], call["s"]) for t in d["t"])
-
-
 def run_call(ck, col, rec, call, R, state, use_model, lines_cb):
     """one collocate() on the Collocator `col`.  state: dict(built=int) per Collocator."""
     from typhon.geographical import to_kilometers
     from typhon.utils.timeutils import to_timedelta
     rec.events.clear()
     rec.bins.clear()
+    rec.binned_times, rec.sliced_times = [], []
     mi_arg, _ = mi_value(call["mi"])
     kw = dict(max_interval=mi_arg, max_distance=call["md"], bin_factor=call.get("bin_factor", 1),
               magnitude_factor=call.get("magnitude_factor", 10), leaf_size=call.get("leaf_size", 40))
@@ -208,6 +235,10 @@ def run_call(ck, col, rec, call, R, state, use_model, lines_cb):
         err = exc_name(e)
         errtxt = f"{type(e).__name__}: {e}"
     slim = {k: v for k, v in call.items()}
+    if use_model:
+        check_cut(ck, rec, slim)
+    if call.get("_expect_binned") and not rec.bins and err is None:
+        ck.count("big-case-not-binned")
     must, may = oracle(call, R)
     sig = None
     npts = len(flat_points(call["p"])), len(flat_points(call["s"]))
@@ -328,36 +359,50 @@ def run_call(ck, col, rec, call, R, state, use_model, lines_cb):
             return
         if err is not None:
             if body != "error " + err:
-                # the known crash classes are modelled as the repaired behaviour is unknown: only report others
-                if classify(call, errtxt) == "other":
-                    ck.disagree(f"code raised {err}, model says {body[:80]}", slim)
+                ck.disagree(f"code raised {err}, model says {body[:80]}", slim)
             return
+        # --- verdict: canonicalised OBSERVABLE outcome (None-ness, collocations by carried id with interval
+        #     and distance, line/position of gridded points); order, bits, object state are diagnostics only
         if res is None:
             if body != "none":
                 ck.disagree(f"code returned None, model says {body[:100]}", slim)
+                return
         else:
             if not body.startswith("ok "):
                 ck.disagree(f"code returned {len(got)} pairs, model says {body[:100]}", slim)
-            else:
-                f = dict(x.split("=", 1) for x in body[3:].split(" "))
-                lst = lambda s: [] if s == "-" else s.split(",")
-                P = res["Collocations/pairs"].values
-                code_out = {
-                    "P": [str(x) for x in res["primary/id"].values.tolist()],
-                    "S": [str(x) for x in res["secondary/id"].values.tolist()],
-                    "pairs": [f"{a}:{b}" for a, b in zip(P[0].tolist(), P[1].tolist())],
-                    "iv": [str(int(x)) for x in res["Collocations/interval"].values.astype("int64").tolist()],
-                    "d": [str(bits(x)) for x in res["Collocations/distance"].values.tolist()],
-                }
-                for grp, nm in (("primary", "PL"), ("secondary", "SL")):
-                    if f"{grp}/scnline" in res:
-                        code_out[nm] = [f"{a}.{b}" for a, b in zip(res[f"{grp}/scnline"].values.tolist(), res[f"{grp}/scnpos"].values.tolist())]
-                for key, val in code_out.items():
-                    if lst(f.get(key, "-")) != val:
-                        ck.disagree(f"{key}: model {lst(f.get(key, '-'))[:6]} vs code {val[:6]} (lengths {len(lst(f.get(key, '-')))}/{len(val)})", slim)
-                        break
-        if st != real_state:
-            ck.disagree(f"Collocator state: model {st} vs code {real_state} (index_with_primary:constructions)", slim)
+                return
+            f = dict(x.split("=", 1) for x in body[3:].split(" "))
+            lst = lambda s: [] if s == "-" else s.split(",")
+            mP, mS = [int(x) for x in lst(f["P"])], [int(x) for x in lst(f["S"])]
+            mpairs = [tuple(int(y) for y in x.split(":")) for x in lst(f["pairs"])]
+            miv = [int(x) for x in lst(f["iv"])]
+            md = [struct.unpack("<d", struct.pack("<Q", int(x)))[0] for x in lst(f["d"])]
+            model_set = sorted((mP[a], mS[b], i, d) for (a, b), i, d in zip(mpairs, miv, md))
+            code_set = sorted((a, b, i, d) for (a, b), (i, d) in got.items())
+            same = len(model_set) == len(code_set) and all(
+                x[:3] == y[:3] and abs(x[3] - y[3]) <= 1e-9 * max(1.0, abs(y[3])) for x, y in zip(model_set, code_set))
+            if not same:
+                k = next((k for k, (x, y) in enumerate(zip(model_set, code_set)) if x[:3] != y[:3] or
+                          abs(x[3] - y[3]) > 1e-9 * max(1.0, abs(y[3]))), min(len(model_set), len(code_set)))
+                ck.disagree(f"collocations differ: model {model_set[k:k + 2]} vs code {code_set[k:k + 2]} "
+                            f"(counts {len(model_set)}/{len(code_set)})", slim)
+                return
+            for grp, nm, mids in (("primary", "PL", mP), ("secondary", "SL", mS)):
+                if f"{grp}/scnline" in res:
+                    code_map = {int(i): f"{a}.{b}" for i, a, b in zip(res[f"{grp}/id"].values.tolist(),
+                                res[f"{grp}/scnline"].values.tolist(), res[f"{grp}/scnpos"].values.tolist())}
+                    model_map = dict(zip(mids, lst(f.get(nm, "-"))))
+                    if code_map != model_map:
+                        ck.disagree(f"{grp} (scan line, position) of the stored points: model {sorted(model_map.items())[:4]} "
+                                    f"vs code {sorted(code_map.items())[:4]}", slim)
+                        return
+            # diagnostics (never a verdict): identical order and bits?
+            P = res["Collocations/pairs"].values
+            exact = (lst(f["P"]) == [str(x) for x in res["primary/id"].values.tolist()]
+                     and lst(f["pairs"]) == [f"{a}:{b}" for a, b in zip(P[0].tolist(), P[1].tolist())]
+                     and lst(f["d"]) == [str(bits(x)) for x in res["Collocations/distance"].values.tolist()])
+            ck.count("diag/order-and-bits-identical" if exact else "diag/order-or-bits-differ")
+        ck.count("diag/object-state-identical" if st == real_state else "diag/object-state-differs")
     lines_cb(lines, compare)
 
 
@@ -370,6 +415,7 @@ def run_binned_direct(ck, rec, case, R, use_model, lines_cb):
     col.bin_factor, col.magnitude_factor, col.leaf_size = case["bin_factor"], case["magnitude_factor"], case["leaf_size"]
     rec.events.clear()
     rec.bins.clear()
+    rec.binned_times, rec.sliced_times = [], []
     mk = lambda d: {"lat": np.array(d["lat"], dtype=float), "lon": np.array(d["lon"], dtype=float),
                     "time": (T_EPOCH + np.array(d["t"], dtype="int64").astype("timedelta64[ns]")).astype("datetime64[ns]")}
     mi = dt.timedelta(microseconds=case["mi_us"])
@@ -383,6 +429,8 @@ def run_binned_direct(ck, rec, case, R, use_model, lines_cb):
         return
     got = list(zip(pairs[0].astype(int).tolist(), pairs[1].astype(int).tolist())) if pairs.size else []
     gd = [float(x) for x in dist] if pairs.size else []
+    if use_model:
+        check_cut(ck, rec, slim)
     # oracle: every near pair with |dt| < mi is a candidate, every candidate is near, none twice
     rk = LD(case["md"])
     D = chord_km(case["p"]["lat"], case["p"]["lon"], case["s"]["lat"], case["s"]["lon"], R)
@@ -429,11 +477,19 @@ def run_binned_direct(ck, rec, case, R, use_model, lines_cb):
             ck.disagree("driver rejected a set-up line (binned)", slim)
             return
         body, _, st = out[-1].rpartition(" ")
+        if not body.startswith("ok "):
+            ck.disagree(f"binned search: model {body[:80]} vs code {len(got)} candidates", slim)
+            return
+        items = [] if body[3:] == "-" else body[3:].split(",")
+        model = sorted((int(a), int(b), struct.unpack("<d", struct.pack("<Q", int(c)))[0]) for a, b, c in (x.split(":") for x in items))
+        code = sorted((a, b, d) for (a, b), d in zip(got, gd))
+        same = len(model) == len(code) and all(x[:2] == y[:2] and abs(x[2] - y[2]) <= 1e-9 * max(1.0, y[2]) for x, y in zip(model, code))
+        if not same:
+            ck.disagree(f"binned search candidates differ: model {model[:3]} vs code {code[:3]} (counts {len(model)}/{len(code)})", slim)
+            return
         want = "ok " + (",".join(f"{a}:{b}:{bits(d)}" for (a, b), d in zip(got, gd)) or "-")
-        if body != want:
-            ck.disagree(f"binned search: model {body[:80]} vs code {want[:80]}", slim)
-        elif st != real_state:
-            ck.disagree(f"binned search state: model {st} vs code {real_state}", slim)
+        ck.count("diag/order-and-bits-identical" if body == want else "diag/order-or-bits-differ")
+        ck.count("diag/object-state-identical" if st == real_state else "diag/object-state-differs")
     lines_cb(lines, compare)
 
 
@@ -719,7 +775,7 @@ def make_check():
                  "float chord distance vs threshold is validated with a 1e-7 margin, not proved"],
         assumptions=["both max_interval and max_distance are given; datasets are non-empty and uniquely labelled on the shared dimension",
                      "times are datetime64[ns] without NaT; start/end are whole microseconds",
-                     "numeric max_interval values are whole seconds (to_timedelta truncates numbers with int())"])
+                     "max_interval has microsecond resolution (datetime.timedelta); numbers, unit strings and timedelta objects"])
 
 
 def main():
